@@ -213,6 +213,20 @@ pub fn run_world(run: &Run, net: NetID, ages: &[u64], difficulties: &[(u32, bool
 /// Second phase: after a mint has raised the recorded DOSC speed, later mints of *older* coins are bounded by the previous
 /// block's (raised) speed, not by the speed recorded when the coin was created.
 fn after_speed_record(run: &Run, eng: &Engine, record: &Node, coins: &[(CoinID, u128, u64)], difficulties: &[(u32, bool)], thorough: bool, other_header: &melstructs::Header) {
+    // the speed demonstrated earlier in the block stays recorded when further transactions (without mints) join the same block:
+    // the engine's batch oracle compares the header's DOSC speed with max(previous, demonstrated) after every accepted batch
+    if let Some((c, v, _)) = coins.first() {
+        let later = tx_t(TxKind::Normal, vec![*c], vec![out_t(*v, Denom::Mel)], 0, vec![0x18]);
+        match eng.step(record, &Action::Batch { label: "transfer later in the block of the record mint".into(), txs: vec![later], expect_ok: true }) {
+            StepOut::Next(n) => {
+                run.outcome("later-call-in-record-block:accepted");
+                if let StepOut::Next(_) = eng.step(&n, &Action::Batch { label: "empty batch".into(), txs: vec![], expect_ok: true }) {
+                    run.outcome("empty-batch-in-record-block:accepted");
+                }
+            }
+            _ => run.outcome("later-call-in-record-block:not-accepted"),
+        }
+    }
     let sealed = match eng.step(record, &Action::Seal(None)) {
         StepOut::Next(x) => x,
         _ => return,
